@@ -13,7 +13,7 @@
 //	     legacy = "-" or start:end,start:-,...   (directories pre-created before the first open;
 //	     "-" as end = metadata without endTime)
 //	     ops: create <ts> | select <a> <b> <ia> <ib> | interval <num> | ttl <unit> <num> | reopen |
-//	          clock <now> | tick <ts> | retention | delold | peekold
+//	          clock <now> | tick <ts> | retention | delold | peekold | retcreate <ts> | delrace
 //	     -> one block per op (and one for the initial open), joined by " | ":
 //	        <result> [start,end,suffix;...] {dir,dir,...}
 //
@@ -33,6 +33,8 @@ import (
 	"sort"
 	"strconv"
 	"strings"
+	"sync"
+	"sync/atomic"
 	"time"
 
 	"github.com/apache/skywalking-banyandb/api/common"
@@ -50,7 +52,16 @@ import (
 
 type tbl struct{}
 
-func (tbl) Close() error                          { return nil }
+// closeHook, when set, is called by every TSTable.Close: the seam through which an op parks a
+// segment's physical delete while another list-mutating path runs.
+var closeHook atomic.Pointer[func()]
+
+func (tbl) Close() error {
+	if h := closeHook.Load(); h != nil {
+		(*h)()
+	}
+	return nil
+}
 func (tbl) Collect(storage.Metrics)               {}
 func (tbl) TakeFileSnapshot(string) (bool, error) { return true, nil }
 
@@ -137,6 +148,25 @@ func handle(f []string) string {
 		return hist(f)
 	case "wq":
 		return wq(f)
+	case "rms":
+		// rms <target id> <id,id,...|->   the real segmentController.removeSeg on a list of ids
+		if len(f) != 3 {
+			return "bad-op"
+		}
+		var ids []uint32
+		if f[2] != "-" {
+			for _, x := range strings.Split(f[2], ",") {
+				ids = append(ids, uint32(i64(x)))
+			}
+		}
+		var sb []string
+		for _, id := range storage.VerifRemoveSeg(ids, uint32(i64(f[1]))) {
+			sb = append(sb, strconv.FormatUint(uint64(id), 10))
+		}
+		if len(sb) == 0 {
+			return "-"
+		}
+		return strings.Join(sb, ",")
 	case "wb":
 		return wb(f)
 	case "odb":
@@ -466,6 +496,67 @@ func (w *world) op(f []string) string {
 			return "r:none"
 		}
 		return "r:ok"
+	case "retcreate":
+		// retention run with a create issued while its first physical delete is in progress
+		if err := storage.VerifEnsureShards(w.db); err != nil {
+			return "c:ERR"
+		}
+		entered, release := parkFirstClose()
+		done := make(chan struct{})
+		go func() {
+			defer close(done)
+			drv.Safe(func() string { storage.VerifRetentionRun(w.db, w.clock.Now()); return "" })
+		}()
+		select {
+		case <-entered:
+		case <-done:
+		}
+		res := drv.Safe(func() string { return w.op([]string{"create", f[1]}) })
+		close(release)
+		<-done
+		closeHook.Store(nil)
+		return res
+	case "delrace":
+		// lifecycle deleteExpiredSegments(oldest) racing the disk monitor's DeleteOldestSegment on it
+		if err := storage.VerifEnsureShards(w.db); err != nil {
+			return "x:ERR"
+		}
+		segs := storage.VerifSegments(w.db)
+		if len(segs) == 0 {
+			return "x:-"
+		}
+		entered, release := parkFirstClose()
+		var count int64
+		var ok bool
+		done1, done2 := make(chan struct{}), make(chan struct{})
+		go func() {
+			defer close(done1)
+			drv.Safe(func() string { count = w.db.DeleteExpiredSegments([]string{segs[0].Suffix}); return "" })
+		}()
+		parked := false
+		select {
+		case <-entered:
+			parked = true
+		case <-done1:
+		}
+		go func() {
+			defer close(done2)
+			drv.Safe(func() string { ok, _ = w.db.DeleteOldestSegment(); return "" })
+		}()
+		if parked && len(segs) > 1 {
+			// the forced cleanup now holds the controller lock and waits for the segment's mutex
+			deadline := time.Now().Add(5 * time.Second)
+			for !storage.VerifControllerLocked(w.db) && time.Now().Before(deadline) {
+				time.Sleep(50 * time.Microsecond)
+			}
+		} else {
+			<-done2
+		}
+		close(release)
+		<-done1
+		<-done2
+		closeHook.Store(nil)
+		return fmt.Sprintf("x:%d,%s", count, drv.B01(ok))
 	case "delold":
 		ok, err := w.db.DeleteOldestSegment()
 		if err != nil {
@@ -480,6 +571,20 @@ func (w *world) op(f []string) string {
 		return fmt.Sprintf("p:%d", t.UnixNano())
 	}
 	return "bad-op"
+}
+
+// parkFirstClose makes the first TSTable.Close park until release is closed; entered fires when it parks.
+func parkFirstClose() (entered chan struct{}, release chan struct{}) {
+	entered, release = make(chan struct{}, 1), make(chan struct{})
+	var once sync.Once
+	h := func() {
+		once.Do(func() {
+			entered <- struct{}{}
+			<-release
+		})
+	}
+	closeHook.Store(&h)
+	return entered, release
 }
 
 func hist(f []string) (res string) {
